@@ -70,15 +70,16 @@ func (r *resolver) module(y *Module) error {
 	}
 	r.resolving[y.ident] = true
 	defer delete(r.resolving, y.ident)
+	// exand all includes
+	if err := r.copyOverIncludes(y, y.includes); err != nil {
+		return err
+	}
+
+	// after the includes: the features a submodule declares are features of the module
 	if y.featureSet != nil {
 		if err := y.featureSet.Initialize(y); err != nil {
 			return err
 		}
-	}
-
-	// exand all includes
-	if err := r.copyOverIncludes(y, y.includes); err != nil {
-		return err
 	}
 
 	// expand all imports first because local uses may reference groupings in other files.
